@@ -435,6 +435,8 @@ BODY_PINS = [
     ('util', 'parse_operators', 'pinParseOperators'),
     ('util', 'parse_spectrum', 'pinParseSpectrum'),
     ('util', 'get_indices_from_identifiers', 'pinGetIndices'),
+    ('util', 'hash_array_along_axis', 'pinHashArray'),
+    ('util', 'all_array_equal', 'pinAllArrayEqual'),
     ('numeric', 'diagonalize', 'pinDiagonalize'),
     ('numeric', 'calculate_control_matrix_from_scratch', 'pinControlMatrixFromScratch'),
     ('numeric', 'calculate_control_matrix_from_atomic', 'pinControlMatrixFromAtomic'),
